@@ -304,7 +304,7 @@ CLAIMED = {
                 "exact oracle (Fractions on the exact f64 values, explicit tolerances) on the REAL grisubal over generated simple polygons "
                 "and nested polygon sets in general position, cell sizes, three clip modes, mis-oriented variants. Tie for the modelled "
                 "parts: orient/grid-sizing commands answered by both drivers. Props/C16Cross.lean: the intersection step for one segment (all three code paths, any grid, eps-general position) is modelled over Q and tied (new commands gcross/gchain; exact family compared as equal rationals): every reported crossing lies on the segment and on the named grid side, none is missed, strictly sorted, count = |di|+|dj| (the pre-allocated identifiers), one cell between consecutive crossings. Props/C16Clip.lean: clip_left/right on Boundary-tagged maps (HashSet order a parameter): exactly the darts of the faces reachable from a tagged dart are removed and unlinked, the result is WF, remaining boundary darts 2-free, order-independent; Props/C16Insert.lean: steps 2-3 (grouping per edge, ids, insertion): every written slot k gets its dart at res[k] for every HashMap order (after repair of D16c), distinct darts, composed with C14's insertion theorems for one edge; tied through the cfg(honeycomb_verif) hooks intersection_data / intersection_darts / clip (exact text equality on the exact family).",
-        "note": "Partial. Steps 1-5 of the pipeline and the clip are each MODELLED over exact rationals, PROVED (C16Cross, C16Insert, C16Grid, "
+        "note": "Step 1 of the pipeline, generate_intersection_data of grisubal/routines/compute_intersecs.rs, is RE-TRANSLATED from the source on every run (Gen/GCross.lean: the s / t formulas of the four *_intersec! macros as expression trees, the cx / cy divisors of the cell coordinates, per arm of the case analysis the pattern, dart offset, macro and cell size, the range bounds of the straight arms, the ranges, sides and comparison operators of the diagonal arm) and proved equal to crossingsOf of the model (Props/C16Gen.lean: C16_gen_cross_step, per-arm and per-macro theorems, C16_gen_cross_arms_complete, corollary C16_gen_cross_sorted); the control skeleton around the arms is fixed by a token template (a change there is a refused shape). Partial. Steps 1-5 of the pipeline and the clip are each MODELLED over exact rationals, PROVED (C16Cross, C16Insert, C16Grid, "
                 "C16Edges, C16EdgeInsert, C16Clip: crossings sound/complete/sorted/counted; ids per slot for every HashMap order; the "
                 "origin-shift loop terminates and leaves no vertex on a grid corner; edge data and edge insertion with Left/Right tags, "
                 "WF preserved; the hypotheses of the clip theorems are ESTABLISHED for pipeline outputs, C16_pipeline_clip_WF) and TIED step "
